@@ -26,7 +26,7 @@ RULE = ('seeded random 3-axis signals: linear (a + b t, d + e t with non-paralle
         ' Round 4: class long-excerpt - records of 70 000..270 000 samples: rows around every power of two, every multiple of 65536 and random rows must equal the same samples processed as a 14-sample excerpt (1e-12 relative).')
 ASSUMPTIONS = ['reference integrals by DOP853 at rtol 1e-13; rungs used for the order fit (>= 3 consecutive) satisfy max(|w|, signal frequency) * 1.5 h <= 0.3 (linear) / 0.12 (sinusoid) '
                'and error >= 100x the oracle floor (4 eps of the increment)', 'orders required: 3.5 (linear signals, from the statement: exact through the cubic term); 2.0 for sinusoids (the docstring names no order; with jittered stamps the max-over-intervals error of a rate sensor fell as h^2.49 in a thorough run, observed range 2.5..3.0; every coefficient / sign slip is decided by the linear clause, the sinusoid clause only guards against a drop to first order)']
-REQUIRED_OBS = ['excerpt_rows_compared', 'structure_checked', 'order_fits', 'rungs_evaluated', 'imu_columns_permuted', 'pattern_one_late', 'pattern_two_rate', 'pattern_alternating',
+REQUIRED_OBS = ['mixed_dtype_frames', 'excerpt_rows_compared', 'structure_checked', 'order_fits', 'rungs_evaluated', 'imu_columns_permuted', 'pattern_one_late', 'pattern_two_rate', 'pattern_alternating',
                 'pattern_ramp', 'pattern_gap', 'pattern_late_first', 'pattern_jitter']
 REQUIRED_CLASSES = {'all': ['long-excerpt', 'linear-rate-uniform', 'linear-rate-irregular', 'linear-increment-uniform', 'linear-increment-irregular',
                             'sine-rate-uniform', 'sine-rate-irregular', 'sine-increment-uniform', 'sine-increment-irregular']}
@@ -161,6 +161,11 @@ def run_case(case):
     rng = np.random.Generator(np.random.PCG64(case['seed']))
     kind, stype, stamps = case['cls'].split('-')
     sig = make_signal(rng, kind)
+    mixed = kind == 'linear' and stype == 'rate' and case['seed'] % 5 == 0
+    if mixed:
+        # a turntable at constant whole-number rates (rad/s), logged as integers next to float accelerometers: a frame of mixed dtypes
+        sig = bodyint.LinearSignal(np.array([1.0, -2.0, 2.0]) * rng.choice([-1, 1], 3), np.zeros(3), rng.uniform(-1, 1, 3) * 15, rng.uniform(-1, 1, 3) * 10)
+        bump('mixed_dtype_frames')
     nint = 8
     pattern = case.get('pattern', 'jitter') if stamps == 'irregular' else 'uniform'
     if pattern == 'jitter' or stamps != 'irregular':
@@ -199,6 +204,8 @@ def run_case(case):
             first = np.r_[np.diff(sig.W(t_1), axis=0)[0], np.diff(sig.F(t_1), axis=0)[0]]
             data = np.vstack([first, inc])
         imu = pd.DataFrame(data, index=pd.Index(tt, name='time'), columns=GY + AC)
+        if mixed:
+            imu = imu.astype({c: np.int64 for c in GY})
         if shuf is not None:
             imu = forms.shuffle_table(imu, np.random.Generator(np.random.PCG64(case['seed'] + 5)))
         try:
